@@ -219,7 +219,7 @@ def inFragEq : List ANode → Bool
   | c :: cs => (if c.kind == .math then inFragM c else inFrag c) && inFragEq cs
 /-- The covered fragment for math mode. -/
 def inFragM : ANode → Bool
-  | .leaf k t a => ANode.tokensAreLeaves (.leaf k t a) && (!k.isExpr || k.isFragLeaf || (k == .parbreak && !a.disabled) || k == .none_ || k == .auto_) && (!k.isInnerKind || ((k == .markup || k == .code || k == .importItems) && t == ""))
+  | .leaf k t a => ANode.tokensAreLeaves (.leaf k t a) && (!k.isExpr || k.isFragLeaf || (k == .parbreak && !a.disabled) || k == .none_ || k == .auto_ || k == .math) && (!k.isInnerKind || ((k == .markup || k == .code || k == .importItems || k == .math) && t == ""))
   | .inner k cs _ =>
     if k == .funcCall then mathCallShapeB cs && inFragMCallL cs else
     (k.isMathFlow || k == .math || (k == .mathPrimes && cs.all (fun c => c.kind == .prime)) ||
@@ -390,12 +390,19 @@ theorem inFragMS_seq (cs : List ANode) : ∀ hh, inFragMS hh cs = true → MathS
       · exact Or.inr (Or.inr (Or.inr (Or.inl h2)))
       · exact Or.inr (Or.inr (Or.inr (Or.inr h2)))
 
-theorem inFragM_math_inner (c : ANode) (hk : c.kind = .math) (hq : inFragM c = true) : ∃ mcs a, c = .inner .math mcs a := by
+theorem inFragM_math_inner (c : ANode) (hk : c.kind = .math) (hq : inFragM c = true) :
+    (∃ mcs a, c = .inner .math mcs a) ∨ (∃ a, c = .leaf .math "" a) := by
   cases c with
   | leaf k t a =>
     simp only [ANode.kind] at hk; subst hk
-    simp [inFragM, Kind.isInnerKind] at hq
-  | inner k mcs a => simp only [ANode.kind] at hk; subst hk; exact ⟨mcs, a, rfl⟩
+    right
+    have : t = "" := by
+      have h := hq
+      simp [inFragM, Kind.isInnerKind] at h
+      exact h.2
+    subst this
+    exact ⟨a, rfl⟩
+  | inner k mcs a => simp only [ANode.kind] at hk; subst hk; exact Or.inl ⟨mcs, a, rfl⟩
 
 theorem expr_not_hash {c : ANode} (h : isExpr c = true) : (c.kind == .hash) = false := by
   have : c.kind.isExpr = true := h
@@ -1819,10 +1826,35 @@ theorem convExprM_frag (e : Env) (r : Rec) (hr : RecOK r Q) (hrM : RecOKM r QM) 
   refine Post.bind (Q := fun _ => True) (fun _ _ _ _ => trivial) (fun _ _ => ?_)
   cases n with
   | leaf k t a =>
+    by_cases hmk : k = .math
+    · -- an empty body
+      subst hmk
+      split
+      · rename_i hd
+        have ht : t = "" := by
+          have h := hq
+          simp [inFragM, Kind.isInnerKind] at h
+          exact h.2
+        subst ht
+        refine Post.pure ?_
+        rw [specAll_empty_math_leaf]
+        refine (Carries.mkText e.wd .verbatim _).congr ?_
+        apply Streams.ext' <;> simp [tagS, Pretty.charsOf, ANode.intoText]
+      · show Post (r.math ctx _) _
+        exact hrM.math ctx _ hm rfl hq
     have hq' : inFrag (.leaf k t a) = true := by
-      simp only [inFragM] at hq
-      simp only [inFrag]
-      exact hq
+      simp only [inFragM, Bool.and_eq_true, Bool.or_eq_true] at hq
+      simp only [inFrag, Bool.and_eq_true, Bool.or_eq_true]
+      have hmk' : (k == .math) = false := by simpa using hmk
+      refine ⟨⟨hq.1.1, ?_⟩, ?_⟩
+      · rcases hq.1.2 with h | h
+        · exact h
+        · rw [hmk'] at h; cases h
+      · rcases hq.2 with h | h
+        · exact Or.inl h
+        · rcases h.1 with h1 | h1
+          · exact Or.inr ⟨h1, h.2⟩
+          · rw [hmk'] at h1; cases h1
     exact leaf_expr_frag e r ctx k t a hx hq'
   | inner k cs a =>
     have hkx : k.isExpr = true := hx
@@ -2013,10 +2045,11 @@ theorem convExprM_frag (e : Env) (r : Rec) (hr : RecOK r Q) (hrM : RecOKM r QM) 
 theorem convMath_frag (e : Env) (r : Rec) (hr : RecOK r Q) (hrM : RecOKM r QM) (ctx : Ctx) (hm : ctx.mode = .math)
     (n : ANode) (hk : n.kind = .math) (hq : inFragM n = true) :
     Post (convMath e r ctx n) (fun d => Carries d (specAll n)) := by
-  obtain ⟨mcs, a, rfl⟩ := inFragM_math_inner n hk hq
-  rw [inFragM_inner_ne _ _ _ (by decide)] at hq
-  simp only [Bool.and_eq_true] at hq
-  exact convMath_carries e r hr hrM ctx hm mcs a (inFragMS_seq mcs false hq.2)
+  rcases inFragM_math_inner n hk hq with ⟨mcs, a, rfl⟩ | ⟨a, rfl⟩
+  · rw [inFragM_inner_ne _ _ _ (by decide)] at hq
+    simp only [Bool.and_eq_true] at hq
+    exact convMath_carries e r hr hrM ctx hm mcs a (inFragMS_seq mcs false hq.2)
+  · exact convMath_leaf_carries e r ctx a
 
 /-- **The knot, by induction on the fuel**: at every level, the expression, pattern, parenthesis and markup
 entry points carry what a tree of the fragment prescribes, and so do the expression and math-body entry
